@@ -223,7 +223,7 @@ def fault_variants(profile, n, seed, per_scenario, tag, fault_calls=None):
     return out
 
 
-def schedule_variants(profile, n, seed, singles, pairs, tag):
+def schedule_variants(profile, n, seed, singles, pairs, tag, full_pairs=0):
     """Base concurrent histories are run once without preemption to *measure* the yield points of each
     thread in each `par` statement; variants add one or two preemptions at measured yield points."""
     import copy
@@ -235,6 +235,11 @@ def schedule_variants(profile, n, seed, singles, pairs, tag):
         base.append(sc)
     traces = runner.run_scenarios(base)
     out = list(base)
+    # histories with the canonical race shape first: they get the full pair enumeration
+    order = sorted(range(len(base)), key=lambda ix: (not base[ix].get('combo'), ix))
+    base = [base[ix] for ix in order]
+    traces = [traces[ix] for ix in order]
+    full = {'n': full_pairs}
     rnd = random.Random('sched:%d' % seed)
     for sc, t in zip(base, traces):
         pars = t.get('par') or []
@@ -253,9 +258,14 @@ def schedule_variants(profile, n, seed, singles, pairs, tag):
                 sets.append([a, b, rnd.choice(pts)])
             if sc['steps'][par_steps[pi]].get('straggler'):
                 # preemptions of the owner (thread 0) only, counted from the hand-off on
-                sets = [[p] for p in pts if p[0] == 0]
+                o_pts = [p for p in pts if p[0] == 0]
+                s_pts = [p for p in pts if p[0] == 1] or [(1, 1)]
+                sets = [[p] for p in o_pts]
+                # the straggler is preempted inside one of its calls as well (check -> effect -> append windows)
+                sets += [[rnd.choice(o_pts), (1, k)] for k in range(1, min(40, max(x[1] for x in s_pts) + 8))] if o_pts else []
+                sets += [[rnd.choice(o_pts), rnd.choice(o_pts), (1, rnd.randrange(1, 30))] for _ in range(10)] if o_pts else []
                 if singles:
-                    sets = rnd.sample(sets, min(singles * 2, len(sets)))
+                    sets = rnd.sample(sets, min(singles * 3, len(sets)))
             for si, ps in enumerate(sets):
                 v = copy.deepcopy(sc)
                 if v['steps'][par_steps[pi]].get('straggler'):
@@ -265,6 +275,22 @@ def schedule_variants(profile, n, seed, singles, pairs, tag):
                         x['preempt'] = [list(p) for p in ps]
                 v['id'] = '%s@p%d.%d' % (sc['id'], pi, si)
                 out.append(v)
+            # systematic: every pair {(0, k1), (1, k2)} - thread 0 runs to its k1-th yield point, thread 1 to its
+            # k2-th, then thread 0 finishes, then thread 1 - for the first `full_pairs` two-thread histories
+            first_par = pi == min(i for i, _ in enumerate(pars[:len(par_steps)]))
+            has_pre = any(st['op'] == 'build' for st in sc['steps'][:par_steps[pi]])
+            if (not sc['steps'][par_steps[pi]].get('straggler') and len(info['yields']) == 2 and full['n'] > 0
+                    and first_par and (not has_pre or full['n'] % 3 == 0)
+                    and info['yields'][0] * info['yields'][1] <= 2500):
+                full['n'] -= 1
+                for k1 in range(1, info['yields'][0] + 1):
+                    for k2 in range(1, info['yields'][1] + 1):
+                        v = copy.deepcopy(sc)
+                        for x in v['steps'][par_steps[pi]]['root']:
+                            if x.get('s') == 'par':
+                                x['preempt'] = [[0, k1], [1, k2]]
+                        v['id'] = '%s@f%d.%d.%d' % (sc['id'], pi, k1, k2)
+                        out.append(v)
             # random-priority schedules
             for ri in range(0 if sc['steps'][par_steps[pi]].get('straggler') else (2 if singles else 6)):
                 v = copy.deepcopy(sc)
@@ -349,8 +375,9 @@ def run_property(pid, tier, seed, scale=1.0):
     if P.get('thread_units'):
         nq, nt, sq, st_, pq, pt = P['thread_units']
         n = int((nq if tier == 'quick' else nt) * scale)
+        fp = P.get('full_pairs', (0, 0))
         scs += schedule_variants(P.get('thread_profile', 'threads'), n, seed, sq if tier == 'quick' else st_,
-                                 pq if tier == 'quick' else pt, pid)
+                                 pq if tier == 'quick' else pt, pid, fp[0] if tier == 'quick' else fp[1])
         assume += ['schedules = preemptions at measured yield points (interposed OS calls, lock acquire/release) of '
                    'real threads under a cooperative scheduler; preemptions inside pure Python code between yield '
                    'points are not explored',
@@ -358,6 +385,11 @@ def run_property(pid, tier, seed, scale=1.0):
                    'judged against the sequential contract in claim order']
     dstats, dscs, dmach = design_level(pid, tier, seed, scale)
     scs = dscs + scs
+    if P.get('fslog'):
+        for sc in scs:          # C03: log the library's own rename / remove / replace / rmdir calls as events
+            sc['interpose'] = True
+            sc['fslog'] = True
+        assume.append('the call log covers os.rename / os.remove / os.replace / os.rmdir as seen by the library modules')
     outs = []
     if dmach:
         o = runner.Outcome()
